@@ -183,6 +183,7 @@ def _freq_filter(ts, si, b, axis=None, typ="lp"):
     """
     if axis is None:
         axis = ts.ndim - 1
+    axis = axis % ts.ndim
     ns = ts.shape[axis]
     f = fscale(ns, si=si, one_sided=True)
     if typ == "bp":
